@@ -13,7 +13,7 @@ EXTENDS DnsNameOps, FiniteSets, TLC, Json, IOUtils
 Rec == ndJsonDeserialize(IOEnv.TRACE)
 VARIABLES l, run, cfg, viol, hits, nruns, qs
 vars == <<l, run, cfg, viol, hits, nruns, qs>>
-Rules == {"Z1", "Z2", "Z3", "Z4", "ZN", "PANIC"}
+Rules == {"Z1", "Z2", "Z3", "Z4", "ZN", "Q1", "Q2", "PANIC"}
 Add(v, x) == IF Len(v) >= 24 THEN v ELSE Append(v, x)
 RECURSIVE AddAll(_, _)
 AddAll(v, xs) == IF xs = <<>> THEN v ELSE AddAll(Add(v, Head(xs)), Tail(xs))
@@ -78,8 +78,14 @@ Step ==
             LET a == RxFold(qs, r.rx)
                 b == TxFold([s |-> a, v |-> <<>>], r.out, r.now)
                 c == ResFold([s |-> b.s, v |-> b.v], r.results, r.now)
-            IN /\ qs' = c.s /\ viol' = AddAll(viol, c.v)
-               /\ hits' = [hits EXCEPT !["Z1"] = @ + Len(r.results), !["Z4"] = @ + Len(r.out)]
+                \* C13: a poll strictly before the announced deadline (or without one) at which nothing arrived transmits
+                \* nothing and completes nothing (Q1); an idle poll leaves a later-or-absent deadline (Q2)
+                early == "probe" \in DOMAIN r /\ r.rx = <<>> /\ (r.deadline = -1 \/ r.now < r.deadline)
+                q1 == IF early /\ (r.out # <<>> \/ r.results # <<>>) THEN << <<l, "Q1", r.now, r.deadline, Len(r.out)>> >> ELSE <<>>
+                q2 == IF "probe" \in DOMAIN r /\ r.rx = <<>> /\ r.out = <<>> /\ r.results = <<>> /\ r.pa # -1 /\ r.pa <= r.now THEN << <<l, "Q2", r.now, r.pa>> >> ELSE <<>>
+            IN /\ qs' = c.s /\ viol' = AddAll(viol, c.v \o q1 \o q2)
+               /\ hits' = [hits EXCEPT !["Z1"] = @ + Len(r.results), !["Z4"] = @ + Len(r.out), !["Q1"] = @ + (IF early THEN 1 ELSE 0),
+                                       !["Q2"] = @ + (IF r.rx = <<>> /\ r.out = <<>> THEN 1 ELSE 0)]
                /\ UNCHANGED <<run, cfg, nruns>>
        [] r.ev = "end" ->
             /\ viol' = IF r.open = <<>> THEN viol ELSE Add(viol, <<l, "Z3", "still-pending", Len(r.open)>>)
